@@ -11,6 +11,7 @@ package c12
 
 import (
 	"bytes"
+	"runtime"
 	"context"
 	"errors"
 	"fmt"
@@ -47,11 +48,29 @@ type scenario struct {
 	NR    int      `json:"nr"` // size of the runner id space
 	NC    int      `json:"nc"` // size of the closer id space
 	RRes  []string `json:"rres"`  // nil err deadline canceled wcanceled ctxerr
-	CRes  []string `json:"cres"`  // nil err kcanceled
+	CRes  []string `json:"cres"`  // nil err kcanceled (error wrapping Canceled) kfmt (fmt.Errorf %w Canceled) kraw (context.Canceled)
 	CType []int    `json:"ctype"` // 0 io.Closer, 1 func(context.Context) error, 2 func() error, 3 func()
-	Grace int      `json:"grace"` // ms; -1: no grace period
+	Grace int      `json:"grace"` // configured grace period in ms (0 and negative values are legal configurations); -1: none (nil)
 	PDL   int      `json:"pdl"`   // deadline of the context given to Run, ms; -1: none
 	Steps []step   `json:"steps"`
+	free  bool
+	Free  *freeCase `json:"free,omitempty"` // free-running scenario (no steps): see runFree
+}
+
+// freeCase: N goroutines, released together from a barrier, call Close truly in parallel (outside any
+// synctest bubble, which would run them one at a time) before Run, during Run or after Run returned.
+type freeCase struct {
+	Place string `json:"place"` // before | during | after
+	N     int    `json:"n"`
+}
+
+// effGrace is the grace period the contract reasons with: -1 when none is configured; a configured period that is
+// not positive is outlasted by any closer that needs time at all, exactly like a period of 0.
+func (sc scenario) effGrace() int {
+	if sc.Grace == -1 {
+		return -1
+	}
+	return max(sc.Grace, 0)
 }
 
 func (sc scenario) hasTag(t string) bool {
@@ -86,6 +105,14 @@ func leaves(err error, out *[]string) {
 		for _, e := range j.Unwrap() {
 			leaves(e, out)
 		}
+		return
+	}
+	if msg := err.Error(); strings.HasPrefix(msg, "verif:") { // a harness error made with fmt.Errorf("verif:<id>: ... %w", ...)
+		id := msg[len("verif:"):]
+		if k := strings.Index(id, ":"); k >= 0 {
+			id = id[:k]
+		}
+		*out = append(*out, id)
 		return
 	}
 	switch err {
@@ -160,6 +187,7 @@ type exec struct {
 	cancel context.CancelFunc
 	nrun   int
 	nclose int
+	free   bool // free-running scenario: real goroutines outside a synctest bubble
 	// what the harness knows about the accepted Run (under mu): used to keep calls that need the manager's lock out
 	// of the phase in which Run holds it
 	live      int  // runner functions started and not returned
@@ -183,7 +211,10 @@ func (x *exec) ev(name string, m tv.M) {
 	if m == nil {
 		m = tv.M{}
 	}
-	m["now"] = int(time.Since(x.start) / time.Millisecond)
+	m["now"] = 0
+	if !x.free { // free-running scenarios have no virtual clock (and no grace period, no deadline)
+		m["now"] = int(time.Since(x.start) / time.Millisecond)
+	}
 	switch name {
 	case "runnerstart":
 		x.live++
@@ -254,6 +285,11 @@ func (x *exec) closer(j int) any {
 			case "kcanceled":
 				class, id = "kcanceled", fmt.Sprintf("kc%d", j)
 				err = &sentErr{id: id, wrap: context.Canceled}
+			case "kfmt": // fmt.Errorf("...: %w", context.Canceled)
+				class, id = "kfmt", fmt.Sprintf("kf%d", j)
+				err = fmt.Errorf("verif:%s: closing: %w", id, context.Canceled)
+			case "kraw": // context.Canceled itself
+				class, id, err = "kraw", "canceled", context.Canceled
 			}
 		}
 		x.ev("closerreturn", tv.M{"j": j, "class": class, "id": id})
@@ -302,6 +338,13 @@ func (x *exec) unpark() {
 	if !x.unparked {
 		x.unparked = true
 		close(x.park)
+	}
+}
+
+// caught turns a panic of a manager method into an event (the contract rejects it); used as `defer x.caught("Close")`.
+func (x *exec) caught(what string) {
+	if r := recover(); r != nil {
+		x.ev("panic", tv.M{"what": what, "value": fmt.Sprint(r)})
 	}
 }
 
@@ -360,7 +403,7 @@ func (x *exec) do(st step) {
 		x.ev("addcloser.call", tv.M{"j": st.I, "gate": false, "mix": true})
 		x.curAdd.Store(int64(st.I))
 		err := x.rcm.AddCloser(x.closer(st.I), 42)
-		x.ev("addcloser.ret", tv.M{"j": st.I, "ok": err == nil})
+		x.ev("addcloser.retmix", tv.M{"j": st.I, "ok": err == nil})
 	case "addcloserbad":
 		x.curAdd.Store(0)
 		var err error
@@ -392,6 +435,7 @@ func (x *exec) do(st step) {
 		id := x.nrun
 		x.ev("runcall", tv.M{"id": id})
 		go func() {
+			defer x.caught("Run")
 			var err error
 			if x.rm != nil {
 				err = x.rm.Run(x.ctx)
@@ -405,6 +449,7 @@ func (x *exec) do(st step) {
 		id := x.nclose
 		x.ev("closecall", tv.M{"id": id})
 		go func() {
+			defer x.caught("Close")
 			err := x.rcm.Close()
 			x.ev("closereturn", tv.M{"id": id, "errs": leafIDs(err)})
 		}()
@@ -452,7 +497,7 @@ func (x *exec) body() {
 		x.rm = concurrency.NewRunnerManager(rs...)
 	} else {
 		var gp *time.Duration
-		if sc.Grace >= 0 {
+		if sc.Grace != -1 {
 			d := time.Duration(sc.Grace) * time.Millisecond
 			gp = &d
 		}
@@ -518,6 +563,164 @@ func runScenario(t *testing.T, sc scenario) (evs []rec, dead string, hung bool) 
 	return evs, dead, hung
 }
 
+// runFree drives one free-running scenario (see freeCase) on the real code with real goroutines.  The runners block
+// until their context is cancelled (or return at once in the "after" placement), the closers return at once; the
+// Close calls are announced first and then issued at the same moment from a spinning barrier.  The trace ends with
+// one quiescence event after every goroutine was joined (hung: they could not be joined).
+func runFree(sc scenario) (evs []rec, hung bool) {
+	x := &exec{sc: sc, free: true}
+	concurrency.VerifHook = x.hook
+	defer func() { concurrency.VerifHook = nil }()
+	x.start = time.Now()
+	x.open = true
+	x.relR = make([]chan struct{}, sc.NR+1)
+	x.relRd = make([]bool, sc.NR+1)
+	for i := range x.relR {
+		x.relR[i] = make(chan struct{})
+	}
+	x.relC = make([]chan struct{}, sc.NC+1)
+	x.relCd = make([]bool, sc.NC+1)
+	for j := range x.relC {
+		x.relC[j] = make(chan struct{})
+		x.releaseC(j)
+	}
+	x.gate = make(chan struct{})
+	x.park = make(chan struct{})
+	x.parkPoint.Store("")
+	x.ctx, x.cancel = context.WithCancel(context.Background())
+	defer x.cancel()
+	var rs []concurrency.Runner
+	for i := 1; i <= sc.R0; i++ {
+		rs = append(rs, x.runner(i))
+	}
+	x.rcm = concurrency.NewRunnerCloserManager(theLog(), nil, rs...)
+	x.rcm.WithFatalShutdown(func() { x.ev("fatal", nil) })
+	for j := 1; j <= sc.NC; j++ {
+		x.ev("addcloser.call", tv.M{"j": j, "gate": false, "mix": false})
+		x.curAdd.Store(int64(j))
+		err := x.rcm.AddCloser(x.closer(j))
+		x.ev("addcloser.ret", tv.M{"j": j, "ok": err == nil})
+	}
+	var wg sync.WaitGroup
+	wait := func() {
+		done := make(chan struct{})
+		go func() { wg.Wait(); close(done) }()
+		select {
+		case <-done:
+		case <-time.After(10 * time.Second):
+			hung = true
+		}
+	}
+	runIt := func() {
+		x.nrun++
+		id := x.nrun
+		x.ev("runcall", tv.M{"id": id})
+		wg.Add(1)
+		go func() {
+			defer wg.Done()
+			defer x.caught("Run")
+			err := x.rcm.Run(x.ctx)
+			x.ev("runreturn", tv.M{"id": id, "rejected": errors.Is(err, concurrency.ErrManagerAlreadyStarted), "errs": leafIDs(err)})
+		}()
+	}
+	closeAll := func() {
+		var start atomic.Bool
+		var ready sync.WaitGroup
+		gateCh := make(chan struct{})
+		for k := 0; k < sc.Free.N; k++ {
+			x.nclose++
+			id := x.nclose
+			x.ev("closecall", tv.M{"id": id}) // announced before the barrier: taking the recorder's mutex would serialise the calls
+			wg.Add(1)
+			ready.Add(1)
+			go func() {
+				defer wg.Done()
+				defer x.caught("Close")
+				ready.Done()
+				<-gateCh // all callers are parked here; closing the channel makes them runnable together ...
+				for !start.Load() { // ... and a short spin lines up those that got a processor at once
+					runtime.Gosched()
+				}
+				err := x.rcm.Close()
+				x.ev("closereturn", tv.M{"id": id, "errs": leafIDs(err)})
+			}()
+		}
+		ready.Wait()
+		close(gateCh)
+		start.Store(true)
+	}
+	releaseRunners := func() {
+		for i := range x.relR {
+			x.releaseR(i)
+		}
+	}
+	switch sc.Free.Place {
+	case "before":
+		closeAll()
+		wait()
+		runIt()
+	case "during":
+		runIt()
+		for dl := time.Now().Add(5 * time.Second); time.Now().Before(dl); runtime.Gosched() {
+			x.mu.Lock()
+			started := x.live == sc.R0
+			x.mu.Unlock()
+			if started {
+				break
+			}
+		}
+		closeAll()
+		releaseRunners()
+	case "after":
+		releaseRunners()
+		runIt()
+		wait()
+		closeAll()
+	}
+	wait()
+	x.ev("q", nil)
+	x.mu.Lock()
+	x.open = false
+	evs = x.evs
+	x.mu.Unlock()
+	releaseRunners()
+	return evs, hung
+}
+
+// runFreeGrace drives, with real goroutines and the real clock, a closer manager that has a grace period of zero and
+// nothing to run or close: Run starts the grace closer and releases it at once, so whether the fatal action runs is
+// decided by how the grace closer's goroutine interleaves with Run (a window that a synctest bubble never opens).
+func runFreeGrace(sc scenario) []rec {
+	x := &exec{sc: sc, free: true, open: true}
+	concurrency.VerifHook = x.hook
+	defer func() { concurrency.VerifHook = nil }()
+	x.parkPoint.Store("")
+	d := time.Duration(sc.Grace) * time.Millisecond
+	x.rcm = concurrency.NewRunnerCloserManager(theLog(), &d)
+	x.rcm.WithFatalShutdown(func() { x.ev("fatal", nil) })
+	x.ev("runcall", tv.M{"id": 1})
+	func() {
+		defer x.caught("Run")
+		err := x.rcm.Run(context.Background())
+		x.ev("runreturn", tv.M{"id": 1, "rejected": errors.Is(err, concurrency.ErrManagerAlreadyStarted), "errs": leafIDs(err)})
+	}()
+	x.ev("q", nil)
+	return x.evs
+}
+
+func freeScenarios(rng *rand.Rand) []scenario {
+	var out []scenario
+	rounds := ev.Pick(20000, 100000)
+	for r := 0; r < rounds; r++ {
+		nr, nc := r%3, (r/3)%3
+		cr := randTuple(rng, cClasses, nc)
+		out = append(out, scenario{Kind: "rcm", Tags: []string{"free-running"}, R0: nr, NR: nr, NC: nc, Grace: -1, PDL: -1, free: true,
+			RRes: randTuple(rng, []string{"nil", "err", "canceled", "ctxerr"}, nr), CRes: cr, CType: ctypes(rng, cr, r),
+			Free: &freeCase{Place: []string{"before", "during", "after"}[(r/9)%3], N: []int{2, 3, 4, 8}[(r/27)%4]}})
+	}
+	return out
+}
+
 func countOps(sc scenario, op string) int {
 	n := 0
 	for _, s := range sc.Steps {
@@ -539,8 +742,12 @@ func recordImpl(b *tv.Batch, sc scenario, evs []rec) int {
 }
 
 func recordLevel(b *tv.Batch, sc scenario, evs []rec, hooks bool) int {
-	tr := b.Start(tv.M{"kind": sc.Kind, "G": sc.Grace, "pdl": sc.PDL, "nr": sc.NR, "nc": sc.NC, "r0": sc.R0,
-		"nruns": countOps(sc, "run") + countOps(sc, "runpark"), "ncl": countOps(sc, "close")})
+	nruns, ncl := countOps(sc, "run")+countOps(sc, "runpark"), countOps(sc, "close")
+	if sc.Free != nil {
+		nruns, ncl = 1, sc.Free.N
+	}
+	tr := b.Start(tv.M{"kind": sc.Kind, "G": sc.effGrace(), "pdl": sc.PDL, "nr": sc.NR, "nc": sc.NC, "r0": sc.R0,
+		"nruns": nruns, "ncl": ncl})
 	for _, e := range evs {
 		if !hooks && strings.HasPrefix(e.name, "h.") {
 			continue
@@ -593,6 +800,12 @@ func build(p params) scenario {
 	}
 	if p.kind == "rcm" && p.grace != "unset" {
 		sc.Grace = graceMs
+		switch p.grace {
+		case "zero":
+			sc.Grace = 0
+		case "negative":
+			sc.Grace = -20
+		}
 	}
 	if p.trigger == "pdeadline" || p.trigger == "pdeadline-pre" {
 		sc.PDL = 50
@@ -793,6 +1006,12 @@ func build(p params) scenario {
 				sleep(2)
 			case p.grace == "tie":
 				sleep(graceMs - at)
+			case p.grace == "zero" || p.grace == "negative":
+				// a closer that needs any time at all outlasts a grace period of zero (or less); closers that all
+				// return at the very instant they were started are the tie the statement leaves open
+				if (p.nr+len(order))%2 == 0 {
+					sleep(10)
+				}
 			case p.grace == "unset" && k%2 == 0:
 				sleep(500)
 			}
@@ -858,10 +1077,10 @@ func tuples(alpha []string, n int) [][]string {
 
 var (
 	rClasses = []string{"nil", "err", "canceled", "deadline", "wcanceled", "ctxerr"}
-	cClasses = []string{"nil", "err", "kcanceled"}
+	cClasses = []string{"nil", "err", "kcanceled", "kfmt", "kraw"}
 	triggers = []string{"runner", "close", "pcancel", "pdeadline", "pcancel-pre", "pdeadline-pre"}
 	closeAts = []string{"none", "before", "before2", "racestart", "racestart-r", "during2", "afterfirst", "closers", "after", "after2"}
-	graces   = []string{"unset", "generous", "exceeded", "boundary", "tie"}
+	graces   = []string{"unset", "generous", "exceeded", "boundary", "tie", "zero", "negative"}
 	lates    = []string{"none", "during", "mix", "closing", "after", "gate-after", "gate-closing"}
 )
 
@@ -942,7 +1161,11 @@ func generate(rng *rand.Rand) []scenario {
 	for nr := 0; nr <= maxCls; nr++ {
 		for nc := 0; nc <= maxCls; nc++ {
 			for _, rr := range tuples(rClasses, nr) {
-				for _, cr := range tuples(cClasses, nc) {
+				calpha := cClasses
+				if nc == 3 {
+					calpha = []string{"nil", "err", "kraw"}
+				}
+				for _, cr := range tuples(calpha, nc) {
 					for _, ro := range perms(nr) {
 						for _, co := range perms(nc) {
 							if nr == 3 && nc == 3 && rng.Intn(4) != 0 {
@@ -1017,7 +1240,19 @@ func findingKey(sc scenario, why string) string {
 		return "addcloser-after-closing"
 	}
 	k := sc.Kind + ":" + slug(why)
-	if sc.Kind == "rcm" && sc.Grace >= 0 && countOps(sc, "relc") == 0 &&
+	if sc.hasTag("grace-nonpositive-nothing-to-close") {
+		// real goroutines, grace period <= 0, no runner, no closer: the grace closer's goroutine gets to its timer before
+		// Run closed closeFatalShutdown
+		return k + ":grace-nonpositive-zero-closers:free-running"
+	}
+	if sc.free {
+		k += ":parallel-calls"
+	}
+	if sc.Kind == "rcm" && sc.Grace != -1 && sc.Grace <= 0 && countOps(sc, "relc") == 0 && strings.Contains(why, "no closer outlasted") {
+		// a configured grace period of zero (or less) and no closer at all: the expired timer races closeFatalShutdown
+		return k + ":grace-nonpositive-zero-closers"
+	}
+	if sc.Kind == "rcm" && sc.Grace != -1 && countOps(sc, "relc") == 0 &&
 		(strings.Contains(why, "fatal") || strings.Contains(why, "did not return")) {
 		k += ":grace-set-zero-closers"
 	}
@@ -1025,7 +1260,7 @@ func findingKey(sc scenario, why string) string {
 }
 
 func nontrivial(sc scenario) bool {
-	return countOps(sc, "relr")+countOps(sc, "relc") >= 2 || countOps(sc, "close") > 0 || sc.Grace >= 0
+	return countOps(sc, "relr")+countOps(sc, "relc") >= 2 || countOps(sc, "close") > 0 || sc.Grace != -1
 }
 
 func TestCheck(t *testing.T) {
@@ -1043,7 +1278,7 @@ func TestCheck(t *testing.T) {
 	// 2 x 1; 1 runner x 3 closers), side by side
 	mcCfgs := ev.Pick([]string{"MC_small.cfg"}, []string{"MC_big.cfg", "MC_big_classes.cfg", "MC_big_closers.cfg"})
 	mcs := make([]tlc.Result, len(mcCfgs))
-	defects := []string{"MC_defect_skipctxdone.cfg", "MC_defect_addnocheck.cfg", "MC_defect_addcloser.cfg", "MC_defect_errsearly.cfg", "MC_defect_releaselate.cfg", "MC_defect_filterctxerr.cfg"}
+	defects := []string{"MC_defect_closenonatomic.cfg", "MC_defect_gracezero_nofatal.cfg", "MC_defect_gracezero_race.cfg", "MC_defect_closercanceled.cfg", "MC_defect_skipctxdone.cfg", "MC_defect_addnocheck.cfg", "MC_defect_addcloser.cfg", "MC_defect_errsearly.cfg", "MC_defect_releaselate.cfg", "MC_defect_filterctxerr.cfg"}
 	dres := make([]tlc.Result, len(defects))
 	for i := range mcCfgs {
 		wg.Add(1)
@@ -1053,14 +1288,20 @@ func TestCheck(t *testing.T) {
 				Timeout: ev.Pick(5*time.Minute, 45*time.Minute), HeapMB: ev.Pick(8000, 7000), Args: []string{"-noGenerateSpecTE"}})
 		}()
 	}
-	for i := range defects {
-		wg.Add(1)
-		go func() {
-			defer wg.Done()
+	// informational: does the model of the code as it stands (grace closer re-checking closeFatalShutdown) still let the
+	// fatal action run with a grace period of 0 and nothing to close?  (the goroutine of the grace closer can reach its
+	// timer before Run closed closeFatalShutdown)
+	var lead tlc.Result
+	wg.Add(1)
+	go func() { // the small defect / lead configurations one after the other: a dozen JVMs at once would starve the free-running family
+		defer wg.Done()
+		for i := range defects {
 			dres[i] = tlc.Run(tlc.Opts{Dir: "Managers", Module: "CloserMgr", Config: defects[i], Workers: 2, Timeout: 5 * time.Minute,
 				Args: []string{"-noGenerateSpecTE"}})
-		}()
-	}
+		}
+		lead = tlc.Run(tlc.Opts{Dir: "Managers", Module: "CloserMgr", Config: "MC_lead_gracezero_window.cfg", Workers: 2, Timeout: 5 * time.Minute,
+			Args: []string{"-noGenerateSpecTE"}})
+	}()
 
 	// 2. the real code, scenario by scenario
 	scs := generate(rng)
@@ -1098,8 +1339,75 @@ func TestCheck(t *testing.T) {
 			e.Nontrivial(fmt.Sprintf("%v", sc))
 		}
 	}
+	nSync := len(scs)
+	// 2b. free-running family: parallel Close calls with real goroutines.  Identical traces are judged once.
+	tf := time.Now()
+	frees := freeScenarios(rng)
+	seen := map[string]bool{}
+	fdistinct, fpanic, fplain := 0, 0, 0
+	for _, sc := range frees {
+		evs, h := runFree(sc)
+		if h {
+			hung++
+		}
+		one := &tv.Batch{}
+		record(one, sc, evs)
+		key := fmt.Sprintf("%d/%d/%d/", sc.NR, sc.NC, sc.Free.N) + strings.Join(one.TraceStrings(0), "\n")
+		if seen[key] {
+			continue
+		}
+		seen[key] = true
+		fdistinct++
+		// every distinct trace in which a call panicked goes to TLC (up to a cap), and the first distinct others
+		panicked := false
+		for _, ev1 := range evs {
+			panicked = panicked || ev1.name == "panic"
+		}
+		if panicked {
+			if fpanic++; fpanic > 40 {
+				continue
+			}
+		} else if fplain++; fplain > ev.Pick(1200, 12000) {
+			continue
+		}
+		if len(scs)%chunk == 0 {
+			batches = append(batches, &tv.Batch{})
+			firstOf = append(firstOf, len(scs))
+		}
+		batches[len(batches)-1].AppendTrace(one.Trace(0))
+		scs = append(scs, sc)
+		e.Nontrivial(fmt.Sprintf("free %v %v", sc, key))
+	}
+	tClose := time.Since(tf)
+	// ... and a grace period of zero (and less) with nothing to run or close, many rounds
+	graceRounds := ev.Pick(200000, 2000000)
+	for r := 0; r < graceRounds; r++ {
+		sc := scenario{Kind: "rcm", Tags: []string{"free-running", "grace-nonpositive-nothing-to-close"}, Grace: -20 * (r % 2), PDL: -1, free: true,
+			RRes: []string{}, CRes: []string{}, CType: []int{}, Free: &freeCase{Place: "run", N: 0}}
+		evs := runFreeGrace(sc)
+		key := fmt.Sprint("grace/", sc.Grace, "/", len(evs))
+		for _, e := range evs {
+			key += "/" + e.name
+		}
+		if seen[key] {
+			continue
+		}
+		seen[key] = true
+		fdistinct++
+		if len(scs)%chunk == 0 {
+			batches = append(batches, &tv.Batch{})
+			firstOf = append(firstOf, len(scs))
+		}
+		record(batches[len(batches)-1], sc, evs)
+		scs = append(scs, sc)
+		e.Nontrivial(key)
+	}
+	e.Set("free_running_grace_zero_rounds", int64(graceRounds))
+	fmt.Printf("free-running family: %d rounds of parallel Close calls and %d rounds of grace<=0 shutdowns in %s (%s + %s), %d distinct traces\n", len(frees), graceRounds, time.Since(tf).Round(time.Millisecond), tClose.Round(time.Millisecond), (time.Since(tf) - tClose).Round(time.Millisecond), fdistinct)
+	e.Set("free_running_rounds", int64(len(frees)))
+	e.Set("free_running_distinct_traces", int64(fdistinct))
 	fmt.Printf("drove %d scenarios on the real code in %s (%d left goroutines blocked in the library)\n", len(scs), time.Since(t0).Round(time.Millisecond), dead)
-	e.Set("evaluations", int64(len(scs)))
+	e.Set("evaluations", int64(nSync+len(frees)+graceRounds))
 	byTag := map[string]int{}
 	for _, sc := range scs {
 		byTag["kind="+sc.Kind]++
@@ -1114,7 +1422,7 @@ func TestCheck(t *testing.T) {
 		"the fatal-shutdown action is replaced by a recording function (WithFatalShutdown), so the behaviour after it fired is observed instead of the process exiting")
 	e.Set("scenarios_with_goroutines_left_blocked", int64(dead))
 	e.Set("rule", "every case = one scripted life of a manager: (plain or closer manager; 0..N runners each returning nil | an error | an error wrapping DeadlineExceeded | context.Canceled | an error wrapping Canceled | ctx.Err(); 0..N closers of the types io.Closer / func(context.Context) error / func() error / func() each returning nil | an error | an error wrapping Canceled; the order in which the harness lets the runners and the closers return; what ends the run: a runner returning, Close, cancellation or deadline of the parent context during the run, or a parent context that has already been cancelled / is past its deadline when Run is called (runners then return at once or after a virtual delay); where Close is called: never, before Run (once / three times), racing the start of Run (either call issued first), twice concurrently during the run, after the first runner returned, while the closers run, after Run returned (once / three times); grace period unset | closers well within | closers exceed it | probed 1ms before and 1ms after | a closer returning at the very instant; AddCloser: during the run, mixed with an unsupported value, while the closers run, after Run returned, stopped between its closing check and the lock until the closers finished / ran; unsupported closer type, second Run, Add after Run, Add / AddCloser / Run after Close on a manager that never ran; Run held right after its running CAS (verif points closer.run.afterCAS, runner.run.afterCAS) while Add and AddCloser are called). Exhaustive over result assignments x completion orders for the plain manager (<=3 runners, 4 in thorough) and for the closer manager (<=2x2, 3x3 in thorough), exhaustive over Close placement x grace mode x AddCloser mode x completion orders (<=2x2, 3x3 thorough), seeded-random above. The harness steps one action at a time and records a quiescence event (synctest.Wait) after each; non-trivial = at least two parties released, or a Close call, or a grace period; distinct by the full scenario")
-	for _, i := range []int{len(scs) / 7, len(scs) / 2, len(scs) - 3} {
+	for _, i := range []int{nSync / 7, nSync / 2, nSync - 3} {
 		evs, _, _ := runScenario(t, scs[i])
 		b := &tv.Batch{}
 		record(b, scs[i], evs)
@@ -1186,6 +1494,7 @@ func TestCheck(t *testing.T) {
 		}
 	}
 	e.Set("mc_defect_variants_rejected", det)
+	e.Set("model_grace_zero_nothing_to_close_fatal_reachable", lead.Violation)
 }
 
 // selfTest: the unmodified trace of a rich scenario is accepted; the same trace
